@@ -363,16 +363,26 @@ func SelfExec(timeoutSec int, args ...string) ([]byte, error) {
 // Mon declares a monitor over cases of type C. The returned function runs the
 // check on one case; the same check is used to replay a recorded case.
 func Mon[C any](p *Prop, name string, check func(w *W, c *C)) func(w *W, c *C) {
+	run := func(w *W, c *C) {
+		check(w, c)
+		if PostCase != nil {
+			PostCase(w, p, name, c)
+		}
+	}
 	p.monitors[name] = func(w *W, raw json.RawMessage) error {
 		var c C
 		if err := json.Unmarshal(raw, &c); err != nil {
 			return err
 		}
-		check(w, &c)
+		run(w, &c)
 		return nil
 	}
-	return check
+	return run
 }
+
+// PostCase, when set, runs after every case of every monitor (cross-cutting observers that
+// are fed by shared helpers, e.g. the guard around the text buffer handed to the parser).
+var PostCase func(w *W, p *Prop, monitor string, c interface{})
 
 // ReplayCase re-executes one recorded case.
 func (p *Prop) ReplayCase(w *W, monitor string, raw json.RawMessage) error {
